@@ -120,10 +120,14 @@ def run(c):
     jobs += [(j, ["-views-design"]) for j in range(extra)]
     jobs += [(j, ["-mapkey-design"]) for j in range(36 if c.tier == "quick" else 108)]  # every primitive as a map key
     jobs += [(j, ["-any-design"]) for j in range(8)]  # the type Any everywhere
+    jobs += [(j, ["-solo-design"]) for j in range(12)]  # methods with exactly one payload attribute: type x presence x validation x location
+    jobs += [(j, ["-multipart-design"]) for j in range(4)]  # multipart requests with one parameter / header of every kind
     jobs += [(3, ["-matrix-design", "-loose-defaults"])]  # collection defaults handed to Default() as []any / map[string]any
     c.cov["rule"] += (" Plus %d designs each of the systematic transport table (-matrix-design), the primitive-alias designs (-alias-design, at most 40) "
                       "and the result-type/view designs (-views-design); plus the table of every primitive as a map key in request body, response body and "
-                      "query string (-mapkey-design)." % extra)
+                      "query string (-mapkey-design); plus the solo table (-solo-design, 12 designs: every method's payload is ONE attribute, type x required/optional/default x "
+                      "validated x query/header/cookie/path/body) and the multipart requests (-multipart-design, 4 designs: one parameter or header of every "
+                      "primitive, array and map kind next to the parts)." % extra)
     results = designs.parallel(one, jobs)
     shutil.rmtree(work, ignore_errors=True)
     programs = 0
